@@ -66,6 +66,8 @@ pub struct PartOutcome {
     pub classes: BTreeMap<String, u64>,
     pub samples: Vec<Value>,
     pub exhaustive: bool,
+    #[serde(default)]
+    pub supplementary: bool,
     pub violation: Option<Violation>,
     pub known_findings: Vec<String>,
     pub notes: Vec<String>,
@@ -313,6 +315,8 @@ pub struct Part {
     pub thorough: u32,
     /// parts that drive real threads / many cores themselves are run in one shard only
     pub single_shard: bool,
+    /// sampled add-on to an otherwise complete enumeration (does not count against `exhaustive`)
+    pub supplementary: bool,
     pub run: fn(&PartCfg) -> PartOutcome,
     pub replay: fn(&Value) -> Result<(), String>,
 }
@@ -345,6 +349,9 @@ pub fn run_shard(prop: &Property, tier: Tier, seed: u64, shard: u32, nshards: u3
         };
         let (cases, active) = if part.single_shard {
             (total, shard == 0)
+        } else if total == 0 {
+            // complete enumerations split their domain over the shards themselves
+            (0, true)
         } else {
             let base = total / nshards;
             let extra = if shard < total % nshards { 1 } else { 0 };
@@ -354,7 +361,8 @@ pub fn run_shard(prop: &Property, tier: Tier, seed: u64, shard: u32, nshards: u3
             continue;
         }
         let cfg = PartCfg { property: prop.id, part: part.name, tier, cases, seed, shard, nshards, journal: journal.clone() };
-        let out = (part.run)(&cfg);
+        let mut out = (part.run)(&cfg);
+        out.supplementary = part.supplementary;
         let failed = out.violation.is_some();
         res.parts.push(out);
         if failed {
